@@ -131,6 +131,11 @@ export function runHistory(ctx, c, res) {
         drove = true
       } else drove = withWarnings(ge, live.tr, () => driveOp(live.comp, o))
     } catch (e) {
+      // (data the template cannot be created with either - e.g. a `data` expression of a template reference that
+      //  now yields null - is a TypeError in any JavaScript, not a stale tree: the history ends here)
+      const after = mk()
+      for (let k = 0; k <= i; k++) applyOp(after, c.ops[k])
+      if (freshTree(ge, G, c.fs.main, after, extra, pc, dsc).error) { report.count('update_and_fresh_creation_both_throw'); return }
       viol(`update step ${i} (${showOp(o)}) threw: ${String(e.message || e).slice(0, 200)}`, { step: i, error: String(e.stack || e).slice(0, 800) })
       return
     }
